@@ -133,7 +133,7 @@ def cmdIndex (a : KV) : String :=
     let b := indexBackendOf sname
     let key := indexConfigKey loc
     if b = .localDir then
-      s!"key={toHex key} backend=local name={toHex (LFS.osBasename loc |> fun _ => goBase loc)} dir={toHex (goDir loc)}"
+      s!"key={toHex key} backend=local name={toHex (goBase loc)} dir={toHex (goDir loc)}"
     else
       let up := hexOr a "upath"
       s!"key={toHex key} backend={backendStr b} name={toHex (goBase up)} dir={toHex (goDir up)}"
